@@ -478,6 +478,10 @@ impl Engine for C13 {
         ]
     }
 
+    fn expected_probes() -> &'static [&'static str] {
+        &["server_start", "server_stop", "client_connected", "client_connecting", "client_disconnected"]
+    }
+
     fn rule() -> &'static str {
         "each evaluation is one simulated life of a single real app (Full, dedicated-server or client-only plugin set) through a seeded sequence of configuration transitions (server start/stop, client disconnected/connecting/connected, remote clients joining/leaving), event and trigger emissions from inside Update, and frames with varied dt; per sequence number the local observations and the messages put on the wire are counted and must be final. distinct_nontrivial counts distinct (client status, server running, remote clients, role, dt class, events so far) signatures"
     }
